@@ -87,6 +87,7 @@ def styleFromList( styleName, specArray, spacing, showAllLevels):
             numbered = False
         if (numbered):
             lls = ListLevelStyleNumber(level=(i+1))
+            lls.setAttribute('numformat', numberFormat)
             if (numPrefix != ''):
                 lls.setAttribute('numprefix', numPrefix)
             if (numSuffix != ''):
